@@ -41,7 +41,7 @@ def items(tier):
     for i, ch in enumerate(E.chunks(e2, 100)):
         h = hashlib.sha1("\n".join(L.render(e) for e in ch).encode()).hexdigest()[:10]
         its.append({"key": f"E2|{i:05d}|{h}", "kind": "pack", "exprs": ch, "sample": {"first": [L.render(e) for e in ch[:3]], "n": len(ch)}})
-    specs = models.rate_specs()
+    specs = models.degenerate_specs() + models.rate_specs()
     shapes = models.e3_shapes("quick")
     specs += [(k, s) for k, s in models.e3_specs("quick", variants=(tier != "quick")) if len(shapes[int(k.split("|")[1])][0]) <= 1 and ("|n0|" in k or tier != "quick")]
     for ch in E.chunks(specs, 6):
